@@ -576,22 +576,22 @@ def frames_of(case):
     return fr
 
 
-def frames_runs(ctx, n_quick, n_thorough, fam="frames"):
+def frames_runs(ctx, n_quick, n_thorough, fam="frames", model=True):
     runs = []
     for sc in corpus_scripts(ctx.prop, fam):
         for rep in range(3 if ctx.tier == "quick" else 10):
-            runs.append(ctx.run_family(fam, 0, extra=sc, tag=".corpus%d." % rep + os.path.basename(sc)))
+            runs.append(ctx.run_family(fam, 0, extra=sc, tag=".corpus%d." % rep + os.path.basename(sc), model=model, model_family="frames"))
     if ctx.replay:
         rp = json.load(open(ctx.replay))
         if "script" in rp:
             sc = write_script(ctx, "replay.txt", rp["script"])
-            runs.append(ctx.run_family(fam, 0, extra=sc, tag=".replay"))
+            runs.append(ctx.run_family(fam, 0, extra=sc, tag=".replay", model=model, model_family="frames"))
             return runs
     if ctx.tier == "quick":
-        runs.append(ctx.run_family(fam, n_quick))
+        runs.append(ctx.run_family(fam, n_quick, model=model, model_family="frames"))
     else:
         for i in range(8):
-            runs.append(ctx.run_family(fam, n_thorough // 8, seed=ctx.seed * 1000 + i))
+            runs.append(ctx.run_family(fam, n_thorough // 8, seed=ctx.seed * 1000 + i, model=model, model_family="frames"))
     return runs
 
 
@@ -611,21 +611,26 @@ def reject_kind(detail):
     return m.group(1) if m else "?"
 
 
-def frames_check(ctx, relevant_kinds, monitor, n_quick, n_thorough, deps, nontrivial=lambda case, frames: len(frames) >= 2):
+def frames_check(ctx, relevant_kinds, monitor, n_quick, n_thorough, deps, nontrivial=lambda case, frames: len(frames) >= 2,
+                 fams=None):
     """relevant_kinds: kinds of rejected event that concern this property; monitor(case, frames) ->
-    (what, signature) or None is evaluated on the implementation's own trace"""
+    (what, signature) or None is evaluated on the implementation's own trace.
+    fams: list of (family, share of the case budget, replayed by the model?)"""
     if not common_setup(ctx, deps):
         return
     found = False
     sigs = set()
-    for run in frames_runs(ctx, n_quick, n_thorough):
+    allruns = []
+    for fam, share, model in (fams or [("frames", 1.0, True)]):
+        allruns += frames_runs(ctx, max(1, int(n_quick * share)), max(8, int(n_thorough * share)), fam=fam, model=model)
+    for run in allruns:
         cases = split_traces(os.path.join(run["dir"], "cases.txt"))
         verdicts = frames_verdicts(run)
         if run["rc"] != 0:
             what = "implementation run failed (panic, hang or livelock): " + run["log"][-1500:]
             sig = "frames-run-failed"
             m = re.search(r"hang: ([\w-]+)", run["log"])
-            if "panic" in run["log"]:
+            if "panic" in run["log"] or "fatal error" in run["log"]:
                 sig = "panic"
             elif m:
                 sig = "hang-" + m.group(1)
@@ -796,3 +801,31 @@ def check_C04(ctx):
 
 def c17_directed(ctx):
     pass
+
+
+ALLFAMS = [("frames", 0.4, True), ("sched", 0.3, True), ("faults", 0.3, False)]
+
+
+@check
+def check_C14(ctx):
+    ctx.cov["rule"] = FRAME_RULE + "; cancel / Shutdown placed by the script at any step; shutdown listeners wrapped 0-4 deep on both sides"
+    ctx.assumptions = ["cancellation placement is explored by the scripted position plus scheduling perturbation at the hook points"]
+    frames_check(ctx, {"BAR_EXIT", "FINAL", "NOTIFY", "HM_END", "CT_DONE", "CT_EXIT"}, M.c14_monitor, 300, 8000,
+                 CONT_DEPS | {"Props/C14.v"}, fams=[("frames", 0.5, True), ("sched", 0.5, True)])
+
+
+@check
+def check_C15(ctx):
+    ctx.cov["rule"] = ("scenarios of the frames family with one injected fault: k-th Fill of a bar, k-th extender call, k-th Write of "
+                       "the output (k = 1..4), half of them under scheduling perturbation; non-trivial = the fault fired")
+    ctx.assumptions = ["terminal-size query faults need a pty and are exercised by the pty sweep (thorough tier)"]
+    frames_check(ctx, set(), M.c15_monitor, 200, 6000, CONT_DEPS | {"Props/C15.v"},
+                 nontrivial=lambda case, frames: any(" FAULT " in l or " OUTERR " in l for l in case["trace"]),
+                 fams=[("faults", 1.0, False)])
+
+
+@check
+def check_C16(ctx):
+    ctx.cov["rule"] = FRAME_RULE + "; after every scenario (normal, cancel, render error, pop, queued, n>q, perturbed) the worker waits up to 1 s and lists goroutines with a library frame"
+    ctx.assumptions = ["leak = goroutine with a frame of github.com/vbauerster/mpb/v8 still alive after the settle period"]
+    frames_check(ctx, set(), M.c16_monitor, 300, 8000, CONT_DEPS | {"Props/C16.v"}, fams=ALLFAMS)
